@@ -136,11 +136,11 @@ func (l *CompiledLoader) LoadAll(engine *Engine) error {
 			continue
 		}
 
-		// Check if it's a compiled template file
-		ext := filepath.Ext(file.Name())
-		if ext == l.fileExtension {
+		// Check if it's a compiled template file. The extension has two dots
+		// (".twig.compiled"), so filepath.Ext cannot be used to recognise it
+		if strings.HasSuffix(file.Name(), l.fileExtension) {
 			// Get the template name (filename without extension)
-			name := file.Name()[:len(file.Name())-len(ext)]
+			name := strings.TrimSuffix(file.Name(), l.fileExtension)
 			LogInfo("Loading compiled template: %s", name)
 
 			// Load the template
